@@ -20,7 +20,9 @@ IntLeaves == {EId("a"), EInt(2)}
 FloatLeaves == {EId("u"), EFloat(3, 1)}
 Leaves == IntLeaves \cup FloatLeaves
 \* exponent forms: non-negative literal, negated literal, parenthesised literal, int variable, float
-Exps == {EInt(2), EInt(0), EUn("-", EInt(1)), EPar(EInt(2)), EId("n"), EFloat(3, 1), EId("u")}
+\* ... and a literal under unary minus AND parentheses: `-(1)`, `-(-2)` are expressions, not literals (result float)
+Exps == {EInt(2), EInt(0), EUn("-", EInt(1)), EPar(EInt(2)), EId("n"), EFloat(3, 1), EId("u"),
+         EUn("-", EPar(EInt(1))), EUn("-", EPar(EUn("-", EInt(2))))}
 Ops == ArithOps \cup CmpOps
 Prec(op) == CASE op \in CmpOps -> 40 [] op \in {"+", "-"} -> 50 [] op \in {"*", "/", "//", "%"} -> 60 [] op = "**" -> 70
 PrecOf(e) == IF e.k = "bin" THEN Prec(e.op) ELSE IF e.k = "un" THEN 65 ELSE 100
